@@ -45,22 +45,24 @@ func (c15) ChildTimeout(tier string) time.Duration {
 
 func (c15) Thresholds(tier string) map[string]int64 {
 	return map[string]int64{
-		"inputs":                               250000,
-		"class:hostile":                        100000,
-		"class:truncation":                     50000,
-		"class:well-formed":                    50000,
-		"results":                              80000,
-		"errors":                               80000,
-		"attributes-checked":                   80000,
-		"invalid-utf8-inputs":                  20000,
-		"edge-whitespace-inputs":               20000,
-		"results-rechecked-after-later-parses": 80000,
-		"invalid-utf8-reached-the-text":        200,
+		"inputs":            250000,
+		"class:hostile":     100000,
+		"class:truncation":  50000,
+		"class:well-formed": 50000,
+		"class:characters-split-over-nomarkup-sections": 20000,
+		"results-from-split-characters":                 10000,
+		"results":                                       80000,
+		"errors":                                        80000,
+		"attributes-checked":                            80000,
+		"invalid-utf8-inputs":                           20000,
+		"edge-whitespace-inputs":                        20000,
+		"results-rechecked-after-later-parses":          80000,
+		"invalid-utf8-reached-the-text":                 200,
 	}
 }
 
 func (c15) Rule() string {
-	return "case = 200 strings parsed one after the other on ONE parser value: assemblies from a weighted alphabet of marker fragments and hostile bytes ([ ] / = \" \\\\ : blanks, names of the replacement markers, digits, multi-byte, astral, invalid UTF-8 bytes, NUL; length <=64), byte-level truncations of well-formed lines, and well-formed lines. Oracle: ParseMarkup returns (panics are caught and reported, a call that does not return is caught by the child watchdog and confirmed by re-running the case alone); for every result each attribute has Position >= 0, Length >= 0 and Position+Length <= number of characters of Text, and TextForAttribute of every returned attribute returns; every result is checked again (deep equality with a copy, ranges, TextForAttribute) after all later strings of the case were parsed on the same parser value. Non-trivial: the input contains '['. Distinct by hash of the input."
+	return "case = 200 strings parsed one after the other on ONE parser value: assemblies from a weighted alphabet of marker fragments and hostile bytes ([ ] / = \" \\\\ : blanks, names of the replacement markers, digits, multi-byte, astral, invalid UTF-8 bytes, NUL; length <=64), byte-level truncations of well-formed lines, and well-formed lines. Oracle: ParseMarkup returns (panics are caught and reported, a call that does not return is caught by the child watchdog and confirmed by re-running the case alone); for every result each attribute has Position >= 0, Length >= 0 and Position+Length <= number of characters of Text, and TextForAttribute of every returned attribute returns; every result is checked again (deep equality with a copy, ranges, TextForAttribute) after all later strings of the case were parsed on the same parser value. Non-trivial: the input contains '['. Distinct by hash of the input. A fourth input class (11%) writes multi-byte characters piecewise through consecutive [nomarkup] sections, with markers opened, closed and self-closed between the pieces (the character count of the text under construction goes down when the last piece arrives)."
 }
 
 func (c15) Assumptions() []string {
@@ -135,7 +137,9 @@ func (p c15) Run(c *core.Ctx) {
 	var keep []kept
 	for i := 0; i < 200; i++ {
 		var in, class string
-		switch r.PickW(50, 25, 25) {
+		switch r.PickW(45, 22, 22, 11) {
+		case 3:
+			in, class = gen.SplitBytesMarkup(r), "characters-split-over-nomarkup-sections"
 		case 0:
 			in, class = gen.HostileMarkup(r), "hostile"
 			if c.Thorough() && r.Chance(1, 4) {
@@ -168,6 +172,9 @@ func (p c15) Run(c *core.Ctx) {
 			return
 		}
 		c.Feature("results")
+		if class == "characters-split-over-nomarkup-sections" {
+			c.Feature("results-from-split-characters")
+		}
 		if !utf8.ValidString(res.Text) {
 			c.Feature("invalid-utf8-reached-the-text")
 		}
